@@ -11,6 +11,7 @@ import DdnnfVerif.Model.Sample
 import DdnnfVerif.Model.Persist
 import DdnnfVerif.Model.Atomic
 import DdnnfVerif.Model.D4Load
+import DdnnfVerif.Model.D4Conv
 import DdnnfVerif.Model.StreamMsg
 import DdnnfVerif.Model.Edit
 import DdnnfVerif.Model.TWise
@@ -144,6 +145,23 @@ def d4loadAnswer (args : List String) : String :=
         if err then "panic" else s!"{n} " ++ "|".intercalate (nodes.map fmtNode)
   | _ => "bad-args"
 
+/-- `q d4conv <total_features> | line / line / …` : do the hypotheses of the loader theorem hold for the
+text, and if so, does its conclusion (checked by `wfB` on the loaded array)? -/
+def d4convAnswer (args : List String) : String :=
+  match args with
+  | tf :: "|" :: rest =>
+      let lines := (splitOnTok "/" rest).filter (!·.isEmpty)
+      let parsed := lines.filterMap parseD4Line
+      if parsed.length != lines.length then "unparsable"
+      else
+        let total := tf.toNat?.getD 0
+        let (n, nodes, _) := D4.load parsed total
+        if n > 10 then "ok conv=0"
+        else if D4.conventionsB parsed total then
+          (if wfB nodes n then "ok conv=1" else "CONTRADICTION: conventions hold, loaded array not WF")
+        else "ok conv=0"
+  | _ => "bad-args"
+
 /-- `q c2dload | line / line / …` : the model loader on the text of a c2d file -/
 def c2dloadAnswer (args : List String) : String :=
   match args with
@@ -214,6 +232,7 @@ def answer (nodes : List NType) (n : Nat) (kind : String) (args : List String) :
           ";".intercalate ((atomicSets nodes n (cs.filterMap String.toNat?) (parseIntsD As) (cross == "1") []).map fmtInts)
       | [] => "bad-args"
   | "d4load" => d4loadAnswer args
+  | "d4conv" => d4convAnswer args
   | "hasparents" =>
       -- every node except the root is a child of a later node (hypothesis `MS.HasParents` of the scratch-state theorems)
       toString ((List.range (nodes.length - 1)).all fun j =>
